@@ -98,7 +98,9 @@ func genC15(t *rapid.T) c15Case {
 		l := fmt.Sprintf("op%d", i)
 		loc := c15Locs[rapid.IntRange(0, c.NLocs-1).Draw(t, l+".loc")]
 		id := rapid.SampledFrom(ids).Draw(t, l+".id")
-		switch rapid.SampledFrom([]string{"sched", "sched", "sched", "sched", "rule", "fact", "rem", "rem", "anchor", "remAnchor", "clear", "reload", "tick", "tick", "tick"}).Draw(t, l+".kind") {
+		switch rapid.SampledFrom([]string{"sched", "sched", "sched", "sched", "rule", "fact", "rem", "rem", "anchor", "remAnchor", "clear", "reload", "tick", "tick", "tick", "disable", "enable"}).Draw(t, l+".kind") {
+		case "disable", "enable":
+			c.Ops = append(c.Ops, op{K: "enable", Loc: loc, Id: id, B: rapid.Bool().Draw(t, l+".on")})
 		case "sched":
 			x := op{K: "sched", Loc: loc, Id: id, N: int64(rapid.IntRange(0, len(c15Scheds)-1).Draw(t, l+".sched"))}
 			if rapid.IntRange(0, 2).Draw(t, l+".dw?") == 0 {
@@ -231,6 +233,13 @@ func runC15(c c15Case) *vlib.Outcome {
 			} else if was {
 				o.Label("scheduled-overwritten")
 			}
+		case "enable":
+			_, flagged := ml.Items[propId(x.Id, "disabled")]
+			if r := w.enableRule(x.Loc, x.Id, x.B); r.Err != nil && (flagged || !x.B) {
+				// (with the cron hooks installed, removing a flag that
+				// is not there reports not-found; that is accepted)
+				o.Fail("ENABLE_ERROR", "%s: EnableRule failed: %v", when, r.Err)
+			}
 		case "remRule":
 			if r := w.remRule(x.Loc, x.Id); r.Err != nil {
 				// the rem hook fails for an id that is not there
@@ -282,6 +291,18 @@ func runC15(c c15Case) *vlib.Outcome {
 		case "tick":
 			it, live := ml.Items[x.Id]
 			live = live && it.IsRule && it.Schedule != "" && ml.specified(x.Id)
+			switch ml.ruleDisabled(x.Id) {
+			case 1:
+				if live {
+					o.Label("tick-of-disabled-rule")
+				}
+				live = false // a disabled rule does not run
+			case 2:
+				break // flag unspecified: skip this tick's verdict
+			}
+			if ml.ruleDisabled(x.Id) == 2 {
+				continue
+			}
 			if !live && everSched[key] {
 				removedThenTick = true
 			}
